@@ -1,5 +1,5 @@
 (* Model of the HTTP/1 response encoder, reduced to what decides framing, and byte-exact for the
-   body transfer encodings.  Transcribed from (the repaired tree: fixes F1, F2, F12, F18, F23)
+   body transfer encodings.  Transcribed from (the repaired tree: fixes F1, F2, F12, F18, F18b, F23)
      actix-http/src/h1/codec.rs     Codec::{new, decode (context part), encode}
      actix-http/src/h1/encoder.rs   MessageType::encode_headers, MessageEncoder::encode,
                                     TransferEncoding::{encode, encode_eof}
@@ -213,8 +213,8 @@ Definition current_context (c : codec) : reqcontext := (c_head c, c_ver c, c_con
 Definition set_request_context (c : codec) (x : reqcontext) : codec :=
   mkCodec (c_ka_enabled c) (fst (fst x)) (c_stream c) (snd (fst x)) (snd x) (c_te c).
 
-(* Codec::encode(Message::Item((res, length))) *)
-Definition codec_encode_item (c : codec) (r : resp) (length : bsize) : codec * head :=
+(* Codec::encode(Message::Item((res, length))), after the connection-status / version lines *)
+Definition codec_encode_item0 (c : codec) (r : resp) (length : bsize) : codec * head :=
   let ct := match rs_conn r with
             | Some CKeepAlive => c_conn c
             | Some ct => ct
@@ -222,6 +222,16 @@ Definition codec_encode_item (c : codec) (r : resp) (length : bsize) : codec * h
             end in
   let '(t, ct', h) := msg_encode (c_head c) (c_stream c) r (c_ver c) length ct in
   (mkCodec (c_ka_enabled c) (c_head c) (c_stream c) (c_ver c) ct' t, h).
+
+(* repaired (F18b): the response to a CONNECT / upgrade request (STREAM) is never chunk-framed by
+   the encoder, so Codec::encode marks a stream-sized response no_chunking before encoding and
+   the head no longer announces transfer-encoding: chunked *)
+Definition stream_adjust (c : codec) (r : resp) (length : bsize) : resp :=
+  if c_stream c && (match length with BStream => true | _ => false end)
+  then mkResp (rs_status r) (rs_conn r) true (rs_headers r) else r.
+
+Definition codec_encode_item (c : codec) (r : resp) (length : bsize) : codec * head :=
+  codec_encode_item0 c (stream_adjust c r length) length.
 
 (* Codec::encode(Message::Chunk(Some(bytes))) (repaired: F1, empty chunks are not forwarded) *)
 Definition codec_encode_chunk (c : codec) (b : bytes) : codec * bytes :=
